@@ -59,7 +59,7 @@ theorem one_socket_dir (P : Params) (hP : P.Good) (l : Launch) (alive : Bool) (s
 
 /-! ### Witness: without the retry guard a custom runner is relaunched on every retry (former defect D10) -/
 
-def pNoGuard : Params := ⟨false, true, true, true, true, true⟩
+def pNoGuard : Params := ⟨false, true, true, true, true, true, true⟩
 
 def retryTrace : List Event := [.start false, .start false, .protocol false, .killA false false, .killB, .start false]
 
@@ -73,17 +73,28 @@ example : ∃ s, runFrom pNoGuard (init .cmd false) retryTrace = some s ∧ s.la
 
 /-- without the address short-circuit every Start relaunches -/
 theorem no_short_circuit_witness :
-    ∃ s, runFrom ⟨false, false, true, true, true, true⟩ (init .runnerFunc false) [.start true, .start true] = some s ∧ s.launches = 2 := by
-  refine ⟨(runFrom ⟨false, false, true, true, true, true⟩ (init .runnerFunc false) [.start true, .start true]).get (by decide), by simp, by decide⟩
+    ∃ s, runFrom ⟨false, false, true, true, true, true, true⟩ (init .runnerFunc false) [.start true, .start true] = some s ∧ s.launches = 2 := by
+  refine ⟨(runFrom ⟨false, false, true, true, true, true, true⟩ (init .runnerFunc false) [.start true, .start true]).get (by decide), by simp, by decide⟩
 
 /-- without caching, two Client calls return different clients -/
 theorem no_cache_witness :
-    ∃ s, runFrom ⟨true, true, false, true, true, true⟩ (init .cmd false) [.client true true, .client true true] = some s ∧
+    ∃ s, runFrom ⟨true, true, false, true, true, true, true⟩ (init .cmd false) [.client true true, .client true true] = some s ∧
       s.outs = [.okClient 0, .okClient 1] := by
-  refine ⟨(runFrom ⟨true, true, false, true, true, true⟩ (init .cmd false) [.client true true, .client true true]).get (by decide), by simp, by decide⟩
+  refine ⟨(runFrom ⟨true, true, false, true, true, true, true⟩ (init .cmd false) [.client true true, .client true true]).get (by decide), by simp, by decide⟩
+
+/-- a `Start` that lets go of the client lock between its checks and the launch: two overlapping Starts both
+launch (two processes, two socket directories, two different addresses) -/
+theorem raced_start_witness :
+    ∃ s, runFrom ⟨true, true, true, true, true, true, false⟩ (init .runnerFunc false) [.start true, .startRaced true] = some s ∧
+      s.launches = 2 ∧ s.dirsCreated = 2 ∧ s.outs = [.okAddr 0, .okAddr 1] := by
+  refine ⟨(runFrom ⟨true, true, true, true, true, true, false⟩ (init .runnerFunc false) [.start true, .startRaced true]).get (by decide),
+    by simp, by decide, by decide, by decide⟩
+
+/-- with the lock held throughout there is no such step -/
+example : runFrom ⟨true, true, true, true, true, true, true⟩ (init .runnerFunc false) [.start true, .startRaced true] = none := by decide
 
 /-! ### Non-vacuity -/
-def pGood : Params := ⟨true, true, true, true, true, true⟩
+def pGood : Params := ⟨true, true, true, true, true, true, true⟩
 example : ∃ s, runFrom pGood (init .runnerFunc false) retryTrace = some s ∧ s.launches = 1 ∧ s.dirsLive = 0 := by
   refine ⟨(runFrom pGood (init .runnerFunc false) retryTrace).get (by decide), by simp, by decide, by decide⟩
 example : ∃ s, runFrom pGood (init .cmd false) [.start true, .client true true, .start true, .killA true true, .killB, .client true true, .start true] = some s ∧
